@@ -8,3 +8,5 @@ package moss
 func verifGate(name string, m *collection) {}
 
 func verifOnRemove(path string) {}
+
+func verifRef(kind string, obj interface{}, after int) {}
